@@ -190,6 +190,7 @@ def run_property(prop, tier='quick', seed=0, jobs=12):
             del r['smt2']
 
     known = load_known_findings()
+    base_out = {}
     violations = []
     undecided = []
     crashes = []
@@ -242,7 +243,25 @@ def run_property(prop, tier='quick', seed=0, jobs=12):
             elif r['status'] == 'sat':
                 violations.append(r)
             else:
-                undecided.append((r['id'], 'solver: unknown'))
+                # An obligation that was discharged on the unchanged tree (committed baseline) and
+                # is no longer discharged although its module's source changed is reported as a
+                # violation without a failing input; with unchanged source it is solver
+                # instability and stays undecided.
+                key = '%s#%s:%s' % (r['func'], r['kind'], r['label'])
+                base = baseline()
+                modsha = module_sha(r['func'])
+                if key in base.get('discharged', ()) and \
+                        base.get('module_sha', {}).get(module_of(r['func'])) not in (None, modsha):
+                    r['undischarged'] = True
+                    violations.append(r)
+                else:
+                    undecided.append((r['id'], 'solver: unknown'))
+        if os.environ.get('PYVC_WRITE_BASELINE') and not o.get('lemma') and not o['error']:
+            base_out.setdefault('module_sha', {})[module_of(o['func'])] = module_sha(o['func'])
+            for r in o['results']:
+                if r['status'] == 'unsat' and r['kind'] not in ('canary', 'kf-repro'):
+                    base_out.setdefault('discharged', set()).add(
+                        '%s#%s:%s' % (r['func'], r['kind'], r['label']))
         fun_rows.append(row)
     if n_obl == 0 and not crashes and not undecided:
         crashes.append((prop, 'zero obligations generated'))
@@ -318,6 +337,13 @@ def run_property(prop, tier='quick', seed=0, jobs=12):
         'wall_s': round(time.time() - t0, 2),
         'violations': len(vio_lines),
     }
+    if os.environ.get('PYVC_WRITE_BASELINE') and code == 0:
+        pth = os.environ['PYVC_WRITE_BASELINE']
+        cur = json.load(open(pth)) if os.path.exists(pth) else {}
+        cur.setdefault('module_sha', {}).update(base_out.get('module_sha', {}))
+        cur['discharged'] = sorted(set(cur.get('discharged', [])) |
+                                   set(base_out.get('discharged', ())))
+        json.dump(cur, open(pth, 'w'), indent=0)
     if not os.environ.get('PYVC_NO_EVIDENCE'):
         os.makedirs(os.path.join(ROOT, 'evidence'), exist_ok=True)
         with open(os.path.join(ROOT, 'evidence', prop + '.json'), 'w') as f:
@@ -333,6 +359,9 @@ def write_replay(prop, r, pm):
                    '%s-%s-%s' % (r['func'], r['kind'], r['label']))[:120]
     path = os.path.join('replays', '%s-%s.json' % (prop, safe))
     rec = {'property': prop, 'obligation': r['id'], 'function': r['func'], 'kind': r['kind'],
+           'verdict': ('obligation discharged on the unchanged tree is no longer discharged '
+                       '(solver: unknown) after a source change' if r.get('undischarged')
+                       else 'obligation refuted (solver: sat)'),
            'label': r['label'], 'line': r['line'], 'note': r['note'], 'goal': r.get('goal'),
            'solver': {'status': r['status'], 'backend': r['backend'], 'time_s': r['time_s']},
            'model': r.get('model'), 'inputs': r.get('replay'), 'trace': r.get('trace'),
@@ -380,7 +409,11 @@ def write_replay(prop, r, pm):
     base = baseline()
     known_ok = (r['func'] + '#' + r['kind'] + ':' + r['label']) in base.get('discharged', [])
     changed = base.get('sha', {}).get(r['func']) not in (None, function_sha(r['func']))
-    if not confirmed and known_ok and not changed and r['func'] in base.get('sha', {}):
+    if not confirmed and not r.get('undischarged') and \
+            base.get('module_sha', {}).get(module_of(r['func'])) == module_sha(r['func']) and \
+            (r['func'] + '#' + r['kind'] + ':' + r['label']) in base.get('discharged', ()):
+        # the solver refutes, on unchanged source, an obligation it discharged for the
+        # committed baseline and the model does not replay: solver instability, not a violation
         rec['spurious'] = True
     with open(os.path.join(ROOT, path), 'w') as f:
         json.dump(rec, f, indent=1, default=str)
@@ -397,6 +430,23 @@ def baseline():
         p = os.path.join(ROOT, 'baseline_obligations.json')
         _BASE = json.load(open(p)) if os.path.exists(p) else {}
     return _BASE
+
+
+def module_of(qualname):
+    from .source import Source
+    try:
+        return Source().find(qualname)[0].name
+    except Exception:
+        return qualname.split('.')[0]
+
+
+def module_sha(qualname):
+    from .source import Source
+    try:
+        mod = Source().find(qualname)[0]
+        return hashlib.sha256(mod.text.encode()).hexdigest()
+    except Exception:
+        return None
 
 
 def function_sha(qualname):
